@@ -16,6 +16,27 @@ def abstract_tm(rng, nmax=4):
     return {'kind': 'tm', 'Q': Q, 'Sigma': Sigma, 'Gamma': Gamma, 'delta': delta, 'q0': Q[0], 'acc': 'ACC', 'rej': 'REJ', 'blank': '_'}
 
 
+def slow_tm(rng):
+    """A machine that idles for K steps (alternating right / left moves near the left end) before it accepts or
+    rejects on the first input symbol: verdicts that are decided late, but within the default budget of 1000 steps."""
+    K = rng.choice([120, 260, 400, 520, 760, 990, 1005])
+    Sigma = list('ab'[:rng.randint(1, 2)])
+    Gamma = Sigma + ['_']
+    Q = ['c%d' % i for i in range(K)] + ['d', 'ACC', 'REJ']
+    delta = []
+    for i in range(K):
+        nxt = Q[i + 1] if i + 1 < K else 'd'
+        for g in Gamma:
+            delta.append([Q[i], g, nxt, g, 'R' if i % 2 == 0 else 'L'])
+    # after an even number of idle steps the head is back on the first cell
+    acc_on = rng.choice(Sigma)
+    for g in Gamma:
+        delta.append(['d', g, 'ACC' if g == acc_on else 'REJ', g, 'R'])
+    if K % 2:
+        delta = [t for t in delta]      # odd K: the head is on the second cell; still a legal machine
+    return {'kind': 'tm', 'Q': Q, 'Sigma': Sigma, 'Gamma': Gamma, 'delta': delta, 'q0': Q[0], 'acc': 'ACC', 'rej': 'REJ', 'blank': '_'}
+
+
 def rename(spec, rng):
     from gen import names
     newQ = names.fresh_state_names(rng, len(spec['Q']), special_p=0.05)
